@@ -11,7 +11,9 @@ from props.group_lib import (E_CFAIL, E_FIRE, E_HBREPLY, E_JOIN, E_LEAVE, E_LOOK
 
 MODEL = "group"
 MODULE = "Model.GroupObs"
-TIED = ["C17_never_idle", "C17_never_idle_flag", "C17_stable_means_heartbeating", "C17_rejoin_timer_real", "C17_retriable_rejoins", "C17_timer_starts_join",
+TIED = ["C17_never_idle", "C17_never_idle_flag", "C17_stable_means_heartbeating", "C17_rejoin_timer_real", "C17_retriable_rejoins", "C17_timer_starts_join", "C17_any_timer_starts_join", "C17_join_failure_is_rejoin_after_error",
+        "C17_sync_failure_is_rejoin_after_error", "C17_metadata_failure_is_rejoin_after_error", "C17_partition_lookup_failure_is_rejoin_after_error",
+        "C17_heartbeat_failure_is_rejoin_after_error",
         "C17_lookup_failure_retried", "C17_fatal_surfaces", "C17_fatal_surfaces_after_leave"]
 
 
@@ -20,6 +22,7 @@ def monitor(kind, steps):
     """returns (list of failures, facts).  Uses only: what the driver delivered, the recorded outputs, the observation vector."""
     bad, facts = [], {"idle_after_escape": 0, "retriable_checked": 0, "fatal_checked": 0, "idle_checked": 0, "lookup_retry_checked": 0}
     started = user_stop = escaped = internal_stop = False
+    rn_est = True           # the member needs a (re)join: start, or a Kafka error passed rejoin_after_error since the last successful sync
     fatal_k = None
     for i, st in enumerate(steps):
         ev, out, obs = st["ev"], st["out"], st["obs"]
@@ -32,6 +35,8 @@ def monitor(kind, steps):
         scheds = [o for o in out if o[0] == O_SCHED and o[1] == 0]
 
         def expect_retry(k, what):
+            nonlocal rn_est
+            rn_est = True
             facts["retriable_checked"] += 1
             want = GL.doc_delay(k)
             if obs[2] < 1:
@@ -77,22 +82,24 @@ def monitor(kind, steps):
                     escaped = True
             elif c == E_CFAIL:
                 k = ev[2]
-                others = [x for x in steps[i - 1]["running"]] if i else []
                 if k <= K_OTHERKAFKA:
                     expect_retry(k, "partition consumer")
                 elif k == K_NONKAFKA:
                     internal_stop, fatal_k = True, expect_fatal(k, "partition consumer")
                 # CancelledError of a consumer: fatal unless the group holds no consumer (not observable without the table): not checked
-                elif k == K_CANCELLED:
-                    internal_stop = True
+                elif k == K_CANCELLED and any(o[0] in (GL.O_LEAVE, O_STARTD) for o in out):
+                    internal_stop = True        # (ignored when the group holds no consumer: then nothing is output)
         elif st["delivered"] and internal_stop and not user_stop and c == E_LEAVE and fatal_k is not None:
             if not any(o[0] == O_STARTD and o[2] == 100 + fatal_k for o in out):
                 bad.append((i, "C17_fatal_surfaces_after_leave: LeaveGroup exchange ended, start() Deferred did not fail with %s" % GL.KIND_NAMES[fatal_k]))
             fatal_k = None
         # never idle (a member that stopped itself after a fatal error is not restartable: start() after stop() is inert,
         # C17_never_idle's hypothesis `stopping = false` excludes it)
+        if st["delivered"] and c == E_SYNC and ev[2] == 0 and any(o[0] == O_SCHED and o[1] == 1 for o in out):
+            rn_est = False      # successful sync: the heartbeat looper was (re)started
         if started and not user_stop and not internal_stop and obs[0] == 1:
-            active = obs[1] > 0 or obs[2] > 0 or obs[3] == 1 or obs[5] > 0 or obs[7] > 0
+            # a heartbeat looper that is armed counts only for a member that needs no rejoin (it skips its ticks otherwise)
+            active = obs[1] > 0 or obs[2] > 0 or (obs[3] == 1 and not rn_est) or obs[5] > 0 or obs[7] > 0
             if escaped:
                 facts["idle_after_escape"] += 0 if active else 1
             else:
@@ -126,6 +133,7 @@ def run(ck):
         "the partition Consumer is represented by its contract (start/shutdown/stop Deferreds) - stub in harness/props/group_lib.py; the KafkaClient by a scripted stand-in whose Deferreds the driver fires",
         "Twisted inlineCallbacks / LoopingCall / DeferredList semantics as summarised at the top of Model/Group.v (exercised, not verified)",
         "timer delays: the model carries WHICH documented delay; the driver checks the float passed to callLater bit for bit against attr/1000.0",
+        "progress of a generator that waits for the client or for consumers to shut down rests on C11 (every request ends) and C13 (the shutdown Deferred fires)",
         "C17_never_idle excludes histories in which a non-Kafka exception escaped _join_and_sync (finding F-C17-2) and says nothing after stop(); liveness is in event-order form (the armed call starts the join when the reactor fires it)",
     ]
     ck.cov["trusted_base"] += ["harness/props/C17.py (monitors)"]
